@@ -328,7 +328,7 @@ func zeroOf(t *ptr, ty ast.Expr) pVal {
 		return pVal{"(none : Option Int)", ptOpt}
 	case *ast.Ident:
 		switch x.Name {
-		case "int", "int32", "int64":
+		case "int", "int32", "int64", "protocolType":
 			return pVal{"0", ptInt}
 		case "bool":
 			return pVal{"false", ptBool}
@@ -748,6 +748,7 @@ func genPatternGen(repo string, cs []constKV) string {
 		funcs: map[string]pFunc{"extractLowEntropyConfig": {lean: "extractLowEntropyConfig", goArgs: []string{"s.trafficPattern"}, leanArgs: "patNil leNil mode0 rot0", rets: []pTy{ptInt, ptInt, ptBool}}},
 		kind:  "tuple", rets: []pTy{ptInt, ptInt, ptBool},
 		doc:   " (clientUsed = s.clientUseLowEntropy.Load())"})
+	g.genDataProtocol(cs)
 	g.genLEFlagFacts()
 
 	// ---- writeWithPossibleFragment
@@ -901,6 +902,57 @@ func containsReturn(n ast.Node) bool {
 		return true
 	})
 	return found
+}
+
+// genDataProtocol: the protocol type Session.writeChunk gives its data segments: the statements
+// `var protocol protocolType; if s.isClient {…} else {…}` of its fragment loop, as a function of
+// (isClient, sendLowEntropy).
+func (g *pGen) genDataProtocol(cs []constKV) {
+	const file = "pkg/protocol/session.go"
+	fd := g.find(file, "Session", "writeChunk")
+	if fd == nil {
+		g.broken("dataProtocolOf", "Session.writeChunk not found in "+file)
+		return
+	}
+	var stmts []ast.Stmt
+	ast.Inspect(fd.Body, func(n ast.Node) bool {
+		b, ok := n.(*ast.BlockStmt)
+		if !ok || stmts != nil {
+			return true
+		}
+		for i, s := range b.List {
+			if ds, ok := s.(*ast.DeclStmt); ok && nodeString(g.fset, ds) == "var protocol protocolType" && i+1 < len(b.List) {
+				if is, ok := b.List[i+1].(*ast.IfStmt); ok {
+					stmts = []ast.Stmt{ds, is, &ast.ReturnStmt{Return: is.End(), Results: []ast.Expr{ast.NewIdent("protocol")}}}
+				}
+			}
+		}
+		return true
+	})
+	env := map[string]pVal{"s.isClient": {"isClient", ptBool}, "sendLowEntropy": {"sendLowEntropy", ptBool}}
+	have := map[string]bool{}
+	for _, c := range cs {
+		have[c.k] = true
+	}
+	for _, k := range []string{"dataClientToServer", "dataServerToClient", "dataClientToServerLowEntropy", "dataServerToClientLowEntropy"} {
+		if !have[k] {
+			g.broken("dataProtocolOf", "constant "+k+" was not dumped by the compiled repository")
+			return
+		}
+		env[k] = pVal{"Mieru.Gen." + k, ptInt}
+	}
+	g.translate(pSpec{file: file, recv: "Session", name: "writeChunk", lean: "dataProtocolOf",
+		params: []pParam{{"isClient", ptBool}, {"sendLowEntropy", ptBool}}, env: env, kind: "tuple", rets: []pTy{ptInt},
+		body: func(*ast.FuncDecl) []ast.Stmt { return stmts },
+		doc:  ": the protocol type of the data segments of one chunk (sendLowEntropy = the snapshot taken by lowEntropySendConfig at the top of writeChunk)"})
+	// where the snapshot is taken: the statement of writeChunk that calls lowEntropySendConfig, and whether it precedes the loop
+	rows := []string{}
+	for i, s := range fd.Body.List {
+		if strings.Contains(nodeString(g.fset, s), "lowEntropySendConfig") {
+			rows = append(rows, fmt.Sprintf("(%d, %s)", i, q(nodeString(g.fset, s))))
+		}
+	}
+	g.fact("(index among the top-level statements of writeChunk, statement) of every statement that calls lowEntropySendConfig", "lowEntropySnapshot", "List (Nat × String)", rows)
 }
 
 // genLEFlagFacts: every store to clientUseLowEntropy in pkg/protocol with its enclosing function and the
